@@ -827,6 +827,12 @@ func countCases(c *Ctx, args string, total int, nontriv bool) {
 	for _, kind := range honestKinds {
 		for _, ks := range blocks(0, total+2) {
 			out := c.Case(Direct, "faults.count", fmt.Sprintf("%s total=%d w=%s ks=%s", args, total, kind, ks), nontriv)
+			if i := strings.IndexAny(out, "#t"); i >= 0 && !strings.HasPrefix(out, "bad") && !strings.HasPrefix(out, "panic") {
+				// single out the first fault point at which the predicate fails (a short replay)
+				var a int
+				fmt.Sscan(ks, &a)
+				c.Case(Direct, "faults.count", fmt.Sprintf("%s total=%d w=%s ks=%d", args, total, kind, a+i/3), nontriv)
+			}
 			for i := 0; i+3 <= len(out) && !strings.HasPrefix(out, "bad") && !strings.HasPrefix(out, "panic"); i += 3 {
 				c.Stat("count_predicate_"+kind, out[i:i+3])
 			}
@@ -858,6 +864,32 @@ func parserCases(c *Ctx, n int, hist int) {
 				opsl = append(opsl, "u16s")
 			default:
 				opsl = append(opsl, Pick(r, []string{"u8", "u16", "i16", "u32", "pos", "size", "u16s"}))
+			}
+		}
+		if h%2 == 1 && n > 0 {
+			// a history that stays inside the complete input: it completes when k is large enough, so
+			// every result before the fault is compared with the complete input's
+			opsl = opsl[:0]
+			for j := 0; j < nops; j++ {
+				size := Pick(r, []int{1, 2, 4, r.Range(1, 1024), r.Range(1025, 4000), r.Range(1, 4000)})
+				size = min(size, n)
+				pos := r.Intn(n - size + 1)
+				opsl = append(opsl, fmt.Sprintf("seek:%d", pos))
+				switch {
+				case size == 1:
+					opsl = append(opsl, "u8")
+				case size == 2:
+					opsl = append(opsl, Pick(r, []string{"u16", "i16"}))
+				case size == 4:
+					opsl = append(opsl, "u32")
+				case size <= 1024 && r.Bool():
+					opsl = append(opsl, fmt.Sprintf("bytes:%d", size))
+				default:
+					opsl = append(opsl, fmt.Sprintf("read:%d", size))
+				}
+				if r.Chance(1, 4) {
+					opsl = append(opsl, Pick(r, []string{"pos", "size"}))
+				}
 			}
 		}
 		if h == 0 {
@@ -906,6 +938,11 @@ func cffReadCases(c *Ctx, spec string) {
 	for _, mode := range []string{"trunc", "fault"} {
 		for _, ks := range blocks(0, len(data)) {
 			out := c.Case(Direct, "faults.cffread", fmt.Sprintf("cff=%s len=%d mode=%s ks=%s", spec, len(data), mode, ks), true)
+			var a int
+			fmt.Sscan(ks, &a)
+			if i := strings.IndexAny(out, "AP"); i >= 0 && a+i < len(data) && len(out) <= faultBlock {
+				c.Case(Direct, "faults.cffread", fmt.Sprintf("cff=%s len=%d mode=%s ks=%d", spec, len(data), mode, a+i), true)
+			}
 			countVerdicts(c, "cff.Read_"+mode, out)
 		}
 	}
@@ -1011,8 +1048,16 @@ func fileCases(c *Ctx, fspec string, data []byte) {
 		args := fmt.Sprintf("font=%s lastend=%d len=%d ks=%s", fspec, lastEnd, total, ks)
 		out := c.Case(Direct, "faults.trunc", args, true)
 		countVerdicts(c, "sfnt.Read_truncated", out)
+		var a int
+		fmt.Sscan(ks, &a)
+		if i := strings.IndexAny(out, "AP"); i >= 0 && len(out) <= 2*faultBlock {
+			c.Case(Direct, "faults.trunc", fmt.Sprintf("font=%s lastend=%d len=%d ks=%d", fspec, lastEnd, total, a+i/2), true)
+		}
 		out = c.Case(Direct, "faults.reader", args, true)
 		countVerdicts(c, "sfnt.Read_failing_source", out)
+		if i := strings.IndexAny(out, "AP"); i >= 0 && len(out) <= 2*faultBlock {
+			c.Case(Direct, "faults.reader", fmt.Sprintf("font=%s lastend=%d len=%d ks=%d", fspec, lastEnd, total, a+i/2), true)
+		}
 	}
 	c.Stat("fault_points", "file:"+bucket(total))
 	out := c.Case(Diagnostic, "faults.tail", fmt.Sprintf("font=%s len=%d ks=%d-%d", fspec, total, lastEnd, total), true)
